@@ -1,7 +1,7 @@
 (* Properties/C01.v -- literal text and the documented escapes are reproduced exactly.
    The lexer model follows the matcher order regenerated from lexer.py; every theorem holds for
    every template string (no bound on length). *)
-From MakoV Require Import Lib.Str Gen.Unicode Gen.LexerOrder Gen.Parsetree Model.Lexer Proofs.LexerProofs Proofs.LexerEscapes.
+From MakoV Require Import Lib.Str Gen.Unicode Gen.LexerOrder Gen.Parsetree Model.Lexer Proofs.LexerProofs Proofs.LexerEscapes Proofs.LexerLines.
 Open Scope N_scope.
 
 (* nothing dropped, nothing duplicated: the source slices of the events of a successful lex,
@@ -90,6 +90,26 @@ Theorem C01_text_section_verbatim : forall a body t,
   output s = a ++ body ++ t /\ snd (lex s) = LexOk.
 Proof. exact text_section_verbatim. Qed.
 Print Assumptions C01_text_section_verbatim.
+
+(* composition, without a bound on the number of lines: a template made of text lines, double-percent lines and double-hash
+   comment lines in any order.  [items] lists the constructs, each with the directive-free text in front of it (nothing, or
+   text ending in a line feed); [wfb] is the boolean test of those side conditions; the template must not open with a magic
+   encoding comment.  What is written is the text with one percent sign of every double percent removed, the comment lines gone. *)
+Theorem C01_lines_written_exactly : forall items tail,
+  wfb true items tail = true -> scan_coding (doc items tail) = None ->
+  output (doc items tail) = expected items tail /\ snd (lex (doc items tail)) = LexOk.
+Proof. intros items tail H. apply lines_written_exactly. apply wfb_sound. exact H. Qed.
+Print Assumptions C01_lines_written_exactly.
+
+Example C01_lines_nonvacuous :
+  let items := [ (s2l "Dear reader," ++ [LF], KPct); (s2l " of the cases" ++ [LF] ++ s2l "second line" ++ [LF], KHash (s2l " internal note ${x} <%text>"));
+                 ([], KHash []); ([], KPct); (s2l " done!" ++ [LF], KPct) ] in
+  let tail := s2l " end" ++ [LF] in
+  wfb true items tail = true /\ scan_coding (doc items tail) = None /\
+  doc items tail = s2l "Dear reader," ++ [LF] ++ s2l "%% of the cases" ++ [LF] ++ s2l "second line" ++ [LF] ++ s2l "## internal note ${x} <%text>" ++ [LF]
+                   ++ s2l "##" ++ [LF] ++ s2l "%% done!" ++ [LF] ++ s2l "%% end" ++ [LF] /\
+  output (doc items tail) = s2l "Dear reader," ++ [LF] ++ s2l "% of the cases" ++ [LF] ++ s2l "second line" ++ [LF] ++ s2l "% done!" ++ [LF] ++ s2l "% end" ++ [LF].
+Proof. exact lines_nonvacuous. Qed.
 
 (* the hypotheses are met by ordinary text, and the bodies really may hold directive characters *)
 Example C01_escape_hypotheses_nonvacuous :
